@@ -38,5 +38,6 @@ Qed.
 
 (* decompose a hypothesis [x <- e ;; k = Some r] step by step *)
 Ltac unbind H :=
-  repeat (let a := fresh "v" in let E := fresh "E" in
+  repeat (match type of H with bind _ _ = Some _ => idtac end;
+          let a := fresh "v" in let E := fresh "E" in
           apply bind_some in H; destruct H as (a & E & H)).
